@@ -14,7 +14,9 @@ from ..report import Violation
 from ..ref import wlprint
 
 GAPS_US = [0, 400000, 999999, 1000000, 1000001, 1200000, 2500000]
-GAPS_EXTRA_US = [-3000, 0, 999999, 1000001, 2500000]      # a line stamped slightly before its predecessor (two threads, one stderr)
+# a line stamped slightly before its predecessor (two threads, one stderr), well before it (the 32-bit stamp wrapped, or a
+# second process flushed late), and more than half the stamp's period after it
+GAPS_EXTRA_US = [-3000, 0, 999999, 1000001, 2500000, -2500000, 2200000000]
 EXTRAS = ['plain', 'discarded_first', 'chatter_first', 'quoted']
 SHIFTS_QUICK = [0, 1000000000, 492063955, 3261636706]
 SHIFTS_THOROUGH = SHIFTS_QUICK + [1, 2693726254, 10 ** 12, 4294967290000, 770203519, 999999999]
@@ -103,6 +105,8 @@ def check_view(out_lines, expected, t0, case, V, where):
         got = seps.get(j, [])
         gap = None if j < 0 or j + 1 >= len(expected) else expected[j + 1] - expected[j]
         want = gap is not None and gap > 1000000
+        if gap is not None and gap < -1000000:
+            continue      # whether two messages whose times run backwards by more than a second are "apart" is not specified
         if want and len(got) != 1:
             V.append(Violation('separator.missing', case, {'where': where, 'after_shown_index': j, 'gap_us': gap, 'observed': got}))
         elif not want and got:
@@ -122,7 +126,12 @@ def evaluate(case):
             out = []
             for l in leading_lines(case):
                 s.feed_line(l)
-            for l in lines:
+            for k, l in enumerate(lines):
+                if case.get('empty_listings') and k:
+                    # between two live messages the user asks for listings that show nothing (GDB mode, program halted):
+                    # the two messages are still shown one after the other
+                    s.cmd('list zz_no_such_interface')
+                    s.cmd('list [')
                 o, e = s.feed_line(l)
                 out += o
             check_view(out, expected, t0, case, V, 'live')
@@ -184,6 +193,9 @@ def gen_cases(tier):
                     for view in ('live', 'list'):
                         yield {'gaps': list(gaps), 'visible': list(vis), 'shift': shift, 'dialect': 'cur' if extra != 'chatter_first' else 'oldc',
                                'view': view, 'conns': 1, 'prelude_shown': False, 'extra': extra, 'then_list': view == 'live'}
+                    if extra == 'plain':
+                        yield {'gaps': list(gaps), 'visible': list(vis), 'shift': shift, 'dialect': 'mid', 'view': 'live', 'conns': 1,
+                               'prelude_shown': False, 'extra': extra, 'empty_listings': True}
     # two connections (tags need the current dialect) and a shown prelude, on a reduced gap set
     for gaps in itertools.product(GAPS_US, repeat=n):
         for vis in itertools.product((True, False), repeat=n):
